@@ -286,13 +286,10 @@ def handle : List String → String
   | ["as", hist] => handleAS hist
   | _ => "bad-op"
 
-/-- counter-example lines replayed on the implementation first on every run.  F10 and F11 are
-    fixed in the tree (`Witness.lean` proves that the old operation orders violate the property).
-    The one line here is `Witness.runtimeWitness` = `recovery_with_runtime_renewal_full_fails`:
-    a renewal's certificate write reports an error after taking effect, the process keeps running
-    with memory ≠ storage, its next maintenance pass dies between the two writes; the following
-    start-up succeeds with an intermediate key that does not belong to its certificate
-    (known_findings.jsonl, class ca-unsynced-runtime-renewal-after-reported-failed-cert-write). -/
-def witnessLines : List String := ["C14 ca s:-;l:8fa;m:3ca;l:-"]
+/-- counter-example lines replayed on the implementation first on every run: none.  F10, F11 and
+    the unchecked intermediate pair are repaired in the tree; `Witness.lean` proves that the old
+    revisions violate the property, and corpus/C14/*.txt keeps their failing histories as
+    regression cases (replayed first on every run, through model and implementation). -/
+def witnessLines : List String := []
 
 end CaddyModel.C14
